@@ -1,6 +1,6 @@
 #!/usr/bin/env python3
 """Freeze the per-rule obligation counts of the current (hand-confirmed) tree into rules/expected.json.
-Floors: 60% for link-integrity rules (cone size moves with harmless refactors), 80% otherwise."""
+Floors: 50% of the counts on the hand-confirmed tree (de-duplicating refactorings legitimately merge instances; every rule also has its own anchors and completeness conditions), contract minima where a rule states one."""
 import json, os, sys
 V = os.path.dirname(os.path.dirname(os.path.abspath(__file__)))
 exp_p = os.path.join(V, "rules", "expected.json")
@@ -10,7 +10,7 @@ CONTRACT_MIN = {("C20", "D2/T6-padding-record-shape"): 3}     # one padding reco
 for pid in sys.argv[1:]:
     ev = json.load(open(os.path.join(V, "evidence", f"{pid}.json")))
     by = ev["coverage"]["obligations_by_rule"]
-    exp[pid] = {r: max(1, int(n * (0.6 if "T10-link" in r else 0.8))) for r, n in sorted(by.items())}
+    exp[pid] = {r: max(1, int(n * 0.5)) for r, n in sorted(by.items())}
     for (p_, r_), n_ in CONTRACT_MIN.items():
         if p_ == pid and r_ in exp[pid]:
             exp[pid][r_] = min(exp[pid][r_], n_)
